@@ -1,5 +1,6 @@
 """C13 -- retain_graph means what it means in torch.autograd (history simulation against a twin)."""
 import copy
+import json
 
 import numpy as np
 import torch
@@ -41,9 +42,38 @@ ASSUMPTIONS = [
 ]
 
 
+# step types: (kind, retain, chunk class); chunk classes: None, 1, 2, "m+1"
+STEP_TYPES = (
+    [("jd_backward", r, c) for r in (False, True) for c in (None, 1, 2, "m+1")]
+    + [("jd_mtl", r, c) for r in (False, True) for c in (None, 1, 2, "m+1")]
+    + [("torch_backward", r, None) for r in (False, True)]
+    + [("torch_grad", r, None) for r in (False, True)]
+)
+N_SEQ = sum(len(STEP_TYPES) ** k for k in (1, 2, 3))  # all sequences of 1..3 step types: 8420
+
+
+def _seq_from_index(h):
+    length = 1
+    base = len(STEP_TYPES)
+    while h >= base**length:
+        h -= base**length
+        length += 1
+    out = []
+    for _ in range(length):
+        out.append(STEP_TYPES[h % base])
+        h //= base
+    return out
+
+
 def generate(rng, tier, index):
     dtype = "float64"
+    forced = None
+    if tier == "thorough" and index < 8 * N_SEQ:
+        # the thorough tier deals its first 8*N_SEQ runs over ALL sequences of up to 3 step types
+        forced = _seq_from_index(index % N_SEQ)
     is_mtl = rng.random() < 0.5
+    if forced is not None:
+        is_mtl = any(t[0] == "jd_mtl" for t in forced) or rng.random() < 0.3
     if is_mtl:
         r = gen_mtl(rng, dtype, p_probe=0.25, allow_bypass=rng.random() < 0.3)
         if r is None:
@@ -59,13 +89,21 @@ def generate(rng, tier, index):
         return None
     steps = []
     n_steps = rng.choice([1, 2, 2, 3, 3]) if tier == "quick" else rng.choice([1, 2, 3, 3, 4, 5])
+    if forced is not None:
+        n_steps = len(forced)
     for si in range(n_steps):
         retain = rng.random() < 0.55
         kind = rng.choice(["jd", "jd", "jd", "torch_backward", "torch_grad"])
-        if kind == "jd" and is_mtl and rng.random() < 0.7:
+        want_mtl = kind == "jd" and is_mtl and rng.random() < 0.7
+        cclass = rng.choice([None, 1, 2, "m+1"])
+        if forced is not None:
+            fk, retain, cclass = forced[si]
+            kind = "jd" if fk.startswith("jd_") else fk
+            want_mtl = fk == "jd_mtl"
+        if want_mtl:
             call = C02.gen_mtl_call(rng, spec, roles, dtype, model=model, linear_only=True)
             m = len(call["losses"])
-            call["chunk"] = rng.choice([None, 1, 2, m + 1])
+            call["chunk"] = m + 1 if cclass == "m+1" else cclass
             call["retain"] = retain
             steps.append({"kind": "jd", "call": call})
             continue
@@ -85,14 +123,24 @@ def generate(rng, tier, index):
         if kind == "jd":
             from ..world import gen_forms
 
-            call = {"api": "backward", "tensors": outs, "inputs": inputs, "agg": gen_det_agg(rng, rows, dtype, linear_only=True), "chunk": rng.choice([None, 1, 2, rows + 1]), "retain": retain, "forms": gen_forms(rng)}
+            call = {"api": "backward", "tensors": outs, "inputs": inputs, "agg": gen_det_agg(rng, rows, dtype, linear_only=True), "chunk": rows + 1 if cclass == "m+1" else cclass, "retain": retain, "forms": gen_forms(rng)}
             steps.append({"kind": "jd", "call": call})
         else:
             w = [rng.randint(-8, 8) / 4.0 for _ in range(rows)]
             if kind == "torch_grad" and inputs is None:
                 inputs = rng.sample(rg, rng.randint(1, len(rg)))
             steps.append({"kind": kind, "tensors": outs, "inputs": inputs, "w": w, "retain": retain})
-    return {"spec": spec, "roles": roles, "steps": steps, "sched": gen_sched(rng, spec), "twin_sched": gen_sched(rng, spec)}
+    return {"spec": spec, "roles": roles, "steps": steps, "sched": gen_sched(rng, spec), "twin_sched": gen_sched(rng, spec), "stratum": None if forced is None else [[t[0], t[1], t[2]] for t in forced]}
+
+
+def evidence_extra(agg_stats, sets, tier):
+    seen = set(sets.get("forced_sequences", []))
+    return {
+        "step_type_alphabet": len(STEP_TYPES),
+        "sequences_of_up_to_3_step_types_total": N_SEQ,
+        "sequences_covered_by_stratification": len(seen),
+        "exhaustive_part": f"thorough tier: the first 8*{N_SEQ} runs are dealt over all {N_SEQ} sequences of 1..3 step types (api x retain_graph x chunk class), each with fresh random worlds" if tier == "thorough" else "quick tier samples sequences",
+    }
 
 
 def _split(world, names, w):
@@ -329,6 +377,8 @@ def execute(scn):
                 pass
         if viols:
             break
+    if scn.get("stratum"):
+        sets["forced_sequences"] = [json.dumps(scn["stratum"])]
     sets["step_kinds"] = ["/".join(f"{s[0]}:{s[1]}:{'R' if s[2] else 'F'}" for s in outcome_sig)]
     sig = digest([op_sig(spec), outcome_sig])
     uniq = {}
